@@ -4,8 +4,8 @@ driver/manifest_meta.py (level texts, not_applicable reasons)."""
 import json, os, subprocess, sys
 V = os.path.dirname(os.path.dirname(os.path.abspath(__file__)))
 sys.path.insert(0, os.path.join(V, "driver"))
-from props import PROPS
-from manifest_meta import META, NOT_APPLICABLE, HOOK_COMMITS
+from props import PROPS, META
+from manifest_meta import NOT_APPLICABLE, HOOK_COMMITS
 all_ids = [json.loads(l)["id"] for l in open(os.path.join(V, "properties.jsonl"))]
 checks = []
 for pid in all_ids:
